@@ -31,7 +31,7 @@ theorem runFull_early (o : RunOpts) (r : RunIn) (h : stopsEarly o = true) :
   unfold runFull earlyResult
   unfold stopsEarly at h
   cases h1 : o.listPlugins <;> cases h2 : o.checkPrereqsOnly <;> cases h3 : o.prereqsOk <;>
-    cases h4 : o.optionsValid <;> cases h5 : o.anyModule <;> simp_all
+    cases h4 : o.optionsValid <;> cases h5 : o.anyModule <;> cases h6 : readData o.input <;> simp_all
 
 /-- past the early exits the run is `_run_antismash`'s tail on the directory logging left -/
 theorem runFull_late (o : RunOpts) (r : RunIn) (h : stopsEarly o = false) :
@@ -48,8 +48,8 @@ theorem runFull_late (o : RunOpts) (r : RunIn) (h : stopsEarly o = false) :
       | none, t => ⟨⟨s.2 ++ out.trace, none, t⟩, some 0⟩ := by
   unfold stopsEarly at h
   simp only [Bool.or_eq_false_iff, Bool.not_eq_false'] at h
-  obtain ⟨⟨⟨⟨h1, h2⟩, h3⟩, h4⟩, h5⟩ := h
-  simp only [runFull, h1, h2, h3, h4, h5, Bool.false_eq_true, if_false, Bool.not_true, runTail, RunIn.toPipe,
+  obtain ⟨⟨⟨⟨⟨h1, h2⟩, h3⟩, h4⟩, h5⟩, h6⟩ := h
+  simp only [runFull, h1, h2, h3, h4, h5, h6, Bool.false_eq_true, if_false, Bool.not_true, runTail, RunIn.toPipe,
     RunIn.jsonName, effective_target, afterLogging]
   rfl
 
@@ -233,6 +233,35 @@ theorem full_meets_spec (o : RunOpts) (r : RunIn) (wf : (effective r.call).1.WF 
           rw [h4] at h2
           simp [List.append_assoc, h1, h2, hd]
 
+
+/-! ### the invariants at the call: only what the operating system guarantees -/
+
+/-- what the operating system guarantees at a call of `prepare_output_directory`: the working
+    directory is absolute and a directory listing consists of plain names.  Nothing about the `name`
+    argument: the function's own guard takes care of the empty one. -/
+def CallIn.envOk (c : CallIn) : Bool :=
+  PosixPath.isabs c.cwd.toList &&
+    match c.target with
+    | .dir es => es.all fun e => plainName e.name.toList
+    | _ => true
+
+theorem effective_fields (c : CallIn) :
+    (effective c).1.target = c.target ∧ (effective c).1.cwd = c.cwd := by
+  unfold effective; split <;> exact ⟨rfl, rfl⟩
+
+/-- **the `name ≠ ""` hypothesis is discharged**: for every call, whatever the `name` argument, the
+    invariants `PrepIn.WF` of the directory theorems follow from the operating system's guarantees -/
+theorem effective_wf (c : CallIn) (h : c.envOk = true) : (effective c).1.WF = true := by
+  simp only [CallIn.envOk, Bool.and_eq_true] at h
+  obtain ⟨ht, hc⟩ := effective_fields c
+  have hname : (effective c).1.name.toList ≠ [] := by
+    by_cases he : c.nameArg = ""
+    · exact (effective_empty_name c he h.1).1
+    · rw [(effective_given_name c he).1]
+      intro h0
+      exact he (String.toList_inj.1 (by rw [h0]; rfl))
+  simp only [PrepIn.WF, Bool.and_eq_true, Bool.not_eq_true', List.isEmpty_eq_false_iff, ht, hc]
+  exact ⟨⟨h.1, hname⟩, h.2⟩
 
 /-! ### text → bytes -/
 
